@@ -146,7 +146,19 @@ class ContinueCanonicalizationTransformer(converter.Base):
 
   def visit_Try(self, node):
     node.body = self._visit_non_loop_body(node.body)
+    body_may_continue = self.state[_Continue].used
     node.orelse = self._visit_non_loop_body(node.orelse)
+    if node.orelse and body_may_continue:
+      # The else clause runs when the body completes; once a continue (or a
+      # lowered break) in the body has become a flag, it must be skipped.
+      template = """
+        if not var_name:
+          orelse
+      """
+      node.orelse = templates.replace(
+          template,
+          var_name=self.state[_Continue].control_var_name,
+          orelse=node.orelse)
     # In Python 3.8 and later continue is allowed in finally blocks
     node.finalbody = self._visit_non_loop_body(node.finalbody)
     node.handlers = self.visit_block(node.handlers)
